@@ -12,7 +12,7 @@ from ..doubles import Model, Loss, Log, recording_storage_class, num
 LEVEL = 'exploration'
 RULE = ("Product: explainer class in {IncrementalPFI, IncrementalSage, BatchSage, IntervalSage} x {required arguments only, any subset "
         "of optional arguments overridden} x feature-name types (all str / int / float / mixtures) x d in 1..5 x n_inner (constructor, "
-        "per call) x per-call update_storage x stream prefixes; loss in {positional-only callable (def loss(y_true, y_pred, /)), river "
+        "per call) x per-call update_storage x stream prefixes; loss in {positional-only callable (def loss(y_true, y_pred, /)), a loss over (value, weight) TUPLE targets, river "
         "MSE/MAE}; model in {plain callable, RiverWrapper, bound method of a fitted sklearn LinearRegression (-> SklearnWrapper)}. "
         "Oracle over the shared event log of the doubles: construction succeeds; per explain_one on an incremental explainer: "
         "seen_samples +1, model evaluations == 0 on the first call and == 1 + d*n_inner afterwards (marginal imputer), x / y / name "
@@ -70,9 +70,24 @@ class _Counting:
         return obj
 
 
+class TupleTargetLoss:
+    """A legal loss with the documented signature whose targets are (value, weight) tuples - not numbers."""
+
+    def __init__(self, log):
+        self.log = log
+
+    def __call__(self, y_true, y_pred, /):
+        value, weight = y_true
+        v = weight * sum((p - value) ** 2 for p in y_pred.values())
+        self.log.add('loss', y_true, dict(y_pred), v)
+        return v
+
+
 def _mk_loss(kind, log):
     if kind == 'positional':
         return Loss({'kind': 'sq'}, 'float', log=log)
+    if kind == 'tuple_target':
+        return TupleTargetLoss(log)
     from river import metrics
     return {'river_mse': metrics.MSE, 'river_mae': metrics.MAE}[kind]()
 
@@ -125,6 +140,8 @@ def run_incremental(case):
     for t, row in enumerate(case['stream']):
         x = {n: num(v, 'float') for n, v in zip(names, row['x'])}
         y = num(row['y'], 'float')
+        if case['loss'] == 'tuple_target':
+            y = (y, 2.0)
         x_before, y_before = copy.deepcopy(x), copy.deepcopy(y)
         kw = {}
         if row.get('n_inner') is not None:
@@ -203,6 +220,8 @@ def run_batch(case):
     for t, row in enumerate(case['stream']):
         x = {n: num(v, 'float') for n, v in zip(names, row['x'])}
         y = num(row['y'], 'float')
+        if case['loss'] == 'tuple_target':
+            y = (y, 2.0)
         x_before = copy.deepcopy(x)
         kw = {'verbose': False}
         if case['cls'] == 'batch' and case.get('original'):
@@ -235,7 +254,7 @@ def inc_cases(draw):
     if model == 'sklearn_bound':
         loss = 'positional'
     else:
-        loss = draw(st.sampled_from(['positional', 'positional', 'river_mse', 'river_mae']))
+        loss = draw(st.sampled_from(['positional', 'positional', 'river_mse', 'river_mae', 'tuple_target']))
     spec = draw(cfgs.model_st(d, multi=False, allow_ignore=False))
     spec['outs'][0]['label'] = 'output'
     cls = draw(st.sampled_from(['pfi', 'sage']))
@@ -262,7 +281,7 @@ def batch_cases(draw):
     spec = draw(cfgs.model_st(d, multi=False, allow_ignore=False))
     spec['outs'][0]['label'] = 'output'
     cls = draw(st.sampled_from(['batch', 'interval']))
-    case = {'cls': cls, 'names': names, 'spec': spec, 'loss': draw(st.sampled_from(['positional', 'positional', 'river_mse'])),
+    case = {'cls': cls, 'names': names, 'spec': spec, 'loss': draw(st.sampled_from(['positional', 'positional', 'river_mse', 'tuple_target'])),
             'seeds': [draw(gen.seed32), draw(gen.seed32)], 'n_inner': draw(st.sampled_from([None, None, 1, 2])),
             'original': draw(st.booleans()), 'interval': draw(st.sampled_from([None, 1, 2, 3])),
             'storage_length': draw(st.integers(1, 4))}
